@@ -57,7 +57,9 @@ func GenC16(seed uint64) *Plan {
 		}
 		d := &model.Decl{Name: fmt.Sprintf("ig%d", i), Enabled: true, Sources: []model.SrcRef{{Name: sp.Name, Start: uint64(g.between(1, 4))}}}
 		d.Table.Name = fmt.Sprintf("t_ig%d", i)
-		if shared {
+		if shared && (i == 0 || i == nd-1 || g.chance(50)) {
+			// (the first and the last integration always share; one in between
+			// may have a table of its own, so sharers need not be adjacent)
 			d.Table.Name = "t_shared"
 			used = map[string]bool{} // integrations sharing a table may reuse or not reuse column names
 		}
